@@ -72,12 +72,11 @@ func verifAssert(c bool, msg string) {
 		panic(verifStop{"assert"})
 	}
 }
-func verifFail(msg string)          { verifAssert(false, msg) }
-func verifReach(label string)       {}
-func verifSymbolic() bool           { return false }
+func verifFail(msg string)       { verifAssert(false, msg) }
+func verifReach(label string)    {}
+func verifSymbolic() bool        { return false }
 func verifConcrete(s string) string { return s }
-func verifMapOrder(on bool)         {}
-
+func verifMapOrder(on bool)      {}
 // verifKnown reports whether the finding with this key is listed as known in
 // /verif/known_findings.jsonl (the main check then excludes exactly its region).
 func verifKnown(key string) bool {
@@ -92,5 +91,5 @@ func verifAnd(a, b bool) bool     { return a && b }
 func verifOr(a, b bool) bool      { return a || b }
 func verifImplies(a, b bool) bool { return !a || b }
 func verifObserve(label string, v any) {
-	veriffmt.Printf("VERIF-OBSERVE %s=%v\n", label, v)
+	veriffmt.Printf("VERIF-OBSERVE %s=%q\n", label, veriffmt.Sprint(v))
 }
